@@ -630,6 +630,41 @@ func testifyNoSharedState(c *Ctx, p *TPath) {
 				})
 				return true
 			})
+			// locals that may hold a parameter's slice itself (x := param, x = param[lo:hi], transitively): spreading
+			// one of them is spreading the parameter (round 6: "_va := args; Called(_va...)")
+			for changed := true; changed; {
+				changed = false
+				ast.Inspect(x.Body, func(n ast.Node) bool {
+					as, isAs := n.(*ast.AssignStmt)
+					if !isAs || len(as.Lhs) != len(as.Rhs) {
+						return true
+					}
+					for i, l := range as.Lhs {
+						lid, isID := ast.Unparen(l).(*ast.Ident)
+						if !isID {
+							continue
+						}
+						lo := p.Info.Defs[lid]
+						if lo == nil {
+							lo = p.Info.Uses[lid]
+						}
+						if lo == nil || params[lo] {
+							continue
+						}
+						rhs := ast.Unparen(as.Rhs[i])
+						if se, isSl := rhs.(*ast.SliceExpr); isSl {
+							rhs = ast.Unparen(se.X)
+						}
+						if rid, isRID := rhs.(*ast.Ident); isRID && params[p.Info.Uses[rid]] {
+							if _, isSlice := lo.Type().Underlying().(*types.Slice); isSlice {
+								params[lo] = true
+								changed = true
+							}
+						}
+					}
+					return true
+				})
+			}
 			ast.Inspect(x.Body, func(n ast.Node) bool {
 				switch e := n.(type) {
 				case *ast.CallExpr:
